@@ -156,6 +156,14 @@ func (p *Program) generate(j *Job) {
 	if rs == nil {
 		return
 	}
+	// object invariants of the receiver and pointer parameters are re-established on exit
+	for i, prm := range fn.Params {
+		if i < len(args) && args[i].T != nil {
+			if _, isPtr := prm.Type().Underlying().(*types.Pointer); isPtr {
+				x.checkInv(rs, args[i], token.NoPos, "of parameter "+prm.Name()+" on exit")
+			}
+		}
+	}
 	// returned pointers carry their type invariant
 	if rv != nil {
 		rets := []*Val{rv}
